@@ -29,11 +29,13 @@ def _is_stringy(callee, body, bb):
     return ty in ("str", "std::string::String", "[u8]") or ty.startswith("str")
 
 
-def char_sources(body):
+def char_sources(body, ret_char=frozenset()):
     """predicate on sub-expressions: a character-space value"""
     enum_locals = {l for l, loc in enumerate(body.locals) if "Enumerate<std::str::Chars" in loc["ty"]}
 
     def pred(e):
+        if e[0] == "call" and e[1] in ret_char:
+            return True
         if e[0] == "field" and e[1] == 0:
             inner = e[2]
             # (Enumerate::next(iter) as Some).0 .0
@@ -52,13 +54,24 @@ def char_sources(body):
 
 
 def is_conversion(e):
-    """a term that accounts for the width of characters"""
-    return e[0] == "call" and last_seg(e[1]) in ("len_utf8", "char_indices", "len_utf16")
+    """a term that accounts for the width of characters (a running `len_utf8() - 1` correction); byte offsets
+    obtained elsewhere (char_indices, find, len) are not corrections: adding a character count to them is still wrong"""
+    return e[0] == "call" and last_seg(e[1]) == "len_utf8"
 
 
-def byte_sinks(body):
+def byte_sinks(body, param_byte=None):
     """[(bb, description, index expression)]"""
     out = []
+    if param_byte:
+        for bb, t, c in body.calls():
+            ci = body.callee_info(t)
+            callee = (ci or {}).get("resolved") or c
+            ks = param_byte.get(callee)
+            if ks:
+                args = body.call_args(bb)
+                for k in sorted(ks):
+                    if k - 1 < len(args):
+                        out.append((bb, "argument %d of %s (used there as a byte offset)" % (k, mir.short(callee)), args[k - 1]))
     for bb in sorted(body.reachable):
         t = body.term(bb)
         if t["k"] == "assert" and t["kind"] == "bounds":
@@ -85,9 +98,9 @@ def returns(body):
     return out
 
 
-def classify(body, e):
+def classify(body, e, ret_char=frozenset()):
     """'char' if a character-space value reaches e unconverted, 'converted' if together with a width term, else None"""
-    pred, any_enum = char_sources(body)
+    pred, any_enum = char_sources(body, ret_char)
     hit = flow.backward(body, e, pred)
     if hit is None:
         return None
@@ -155,6 +168,43 @@ def width_accounting(body):
     return found, res
 
 
+def summaries(crate):
+    """(RET_CHAR, PARAM_BYTE): functions whose return value is a bare character count, and {function: parameter
+    numbers used as byte offsets} - closed over calls (two rounds reach the fixpoint on this crate; a third checks)"""
+    cached = crate.__dict__.get("_ispace_summaries")
+    if cached is not None:
+        return cached
+    ret_char, param_byte = set(), {}
+    bodies = [b for b in crate.bodies.values() if b.kind == "fn"]
+    # only functions that can matter: they mention chars()/enumerate or take / return usize
+    def interesting(b):
+        return any("usize" in b.locals[l]["ty"] for l in range(0, b.arg_count + 1))
+    bodies = [b for b in bodies if interesting(b)]
+    for _ in range(4):
+        changed = False
+        for b in bodies:
+            if b.path not in ret_char and "usize" in b.locals[0]["ty"]:
+                for bi, e in returns(b):
+                    if classify(b, e, frozenset(ret_char)) == "char":
+                        ret_char.add(b.path)
+                        changed = True
+                        break
+            usize_params = [l for l in range(1, b.arg_count + 1) if b.locals[l]["ty"] == "usize"]
+            if usize_params:
+                for bb, desc, idx in byte_sinks(b, param_byte):
+                    for l in usize_params:
+                        if l in param_byte.get(b.path, ()):
+                            continue
+                        pe = strip_sites(b.local_expr(l))
+                        if flow.backward(b, idx, lambda z, pe=pe: z == pe, through_containers=False) is not None:
+                            param_byte.setdefault(b.path, set()).add(l)
+                            changed = True
+        if not changed:
+            break
+    crate.__dict__["_ispace_summaries"] = (frozenset(ret_char), param_byte)
+    return crate.__dict__["_ispace_summaries"]
+
+
 BYTE_RETURNS = {
     "completers::escaped_word_start": "lineread's Completer::word_start contract: the start of the word as a byte offset "
                                       "into the line (it slices buffer[start..end])",
@@ -164,16 +214,18 @@ BYTE_RETURNS = {
 def rule(ctx, crate, rule_id, paths, with_returns=True, panicking_only=False):
     """run E-ISPACE over the given functions; returns the number of (source-bearing function, sink) pairs looked at"""
     n = 0
+    ret_char, param_byte = summaries(crate)
     for p in paths:
         b = crate.fn(p)
         if b is None:
             continue
-        pred, any_enum = char_sources(b)
-        has_src = any_enum or any(last_seg(c) == "count" and "Chars" in c for bb, t, c in b.calls())
+        pred, any_enum = char_sources(b, ret_char)
+        has_src = any_enum or any(last_seg(c) == "count" and "Chars" in c for bb, t, c in b.calls()) or any(
+            ((b.callee_info(t) or {}).get("resolved") or c) in ret_char for bb, t, c in b.calls())
         if not has_src:
             continue
         ctx.analysed(b)
-        sinks = byte_sinks(b)
+        sinks = byte_sinks(b, param_byte)
         if panicking_only:
             # a character count used on as_bytes() reads the wrong byte but stays in bounds (count <= len): not a panic
             sinks = [x for x in sinks if not x[1].startswith("index into the bytes")]
@@ -183,7 +235,7 @@ def rule(ctx, crate, rule_id, paths, with_returns=True, panicking_only=False):
         counts = {}
         for bb, desc, e in sinks:
             n += 1
-            cls = classify(b, e)
+            cls = classify(b, e, ret_char)
             k = counts.get(desc, 0)
             counts[desc] = k + 1
             ctx.ob(rule_id, p, "%s: the index is not a bare character count" % desc, cls != "char",
